@@ -1314,13 +1314,15 @@ def two_saves_one_loader(ctx, pid):
         t.hardlinks = True
         c.hash_names = set(GT.GOOD_HASHES)
         hs = r.choice(PT.HASHSETS)
-        c.opts = (hs, r.random() < 0.5, None, None, 'default', None, None, False)
-        w1, w2 = r.choice([0, 0, 10**6]), r.choice([0, 10**6, None])
+        # the loader's own watermark / format (constructor arguments): an argument of one save call holds for that call only, a later
+        # call without the argument follows the constructor values again (None: leave each Manifest as it is)
+        c.opts = (hs, r.random() < 0.5, r.choice([None, None, 0, 10**6]), r.choice([None, None, 'gz', 'xz', 'bz2']), 'default', None, None, False)
+        w1, w2 = r.choice([0, 0, 10**6]), r.choice([0, 10**6, None, None])
         fmt = r.choice(['gz', 'bz2', 'xz', None])
         other = [['SHA1']] if hs != ['SHA1'] else [['MD5']]
         mid = [['update_path', p, 'DATA', other] for p in r.sample(sorted(files), r.randint(1, min(3, len(files))))]
         c.ops = [['verify', '', 1, []], ['reload'], ['save', [], 1, [], [w1], [fmt] if fmt else []]] + mid + \
-                [['save', [], r.choice([0, 0, 1]), [], [w2] if w2 is not None else [], [fmt] if fmt else []], ['files'], ['loaded'], ['reload'], ['verify', '', 1, []]]
+                [['save', [], r.choice([0, 0, 1]), [], [w2] if w2 is not None else [], [fmt] if fmt and r.random() < 0.6 else []], ['files'], ['loaded'], ['reload'], ['verify', '', 1, []]]
         c.meta['watermarks'] = [w1, w2]
         c.meta['fmt'] = fmt
         cases.append(c)
